@@ -165,6 +165,9 @@ class Impl(object):
                     if c[1:] == ["evict"]:
                         self.conn.cacheMinimize()
                 op = "count"
+            if op == "abort":
+                self.tm.abort()
+                op = "count"
             if op == "count":
                 n = lex.word_count()
                 a, b = len(lex.words()), len(lex.wids())
@@ -200,8 +203,8 @@ def impl_run(hyp, case):
 
 
 def model_cmd(c):
-    if c[0] == "commit":
-        return ["count"]        # a commit (and a cache eviction) is invisible: the count is observed again
+    if c[0] in ("commit", "abort"):
+        return c                # the model's lexicon returns to the last commit on abort
     if c[0] in ("source", "term", "parse"):
         if c[1] == "n":
             return [c[0], "u"]
@@ -363,10 +366,17 @@ def gen(rng, tier, idx):
         out = []
         for c in cmds:
             out.append(c)
-            if rng.random() < 0.18:
+            r2 = rng.random()
+            if r2 < 0.18:
                 out.append(["commit", "evict"] if rng.random() < 0.5 else ["commit"])
                 if rng.random() < 0.5:
                     out.append(["count"])
+            elif r2 < 0.28:
+                # the transaction is aborted: words it introduced are forgotten, their ids free again
+                # (seeded change C15_C kept a volatile word->id cache across the abort)
+                out.append(["abort"])
+                if rng.random() < 0.5:
+                    out.append(["items"])
         cmds = out
     case = make_case(pipeline, cmds)
     if zodb:
